@@ -134,6 +134,22 @@ func TestC03(t *testing.T) {
 			}
 			pcfg = map[string]any{"mode": "raw", "lineHex": hex.EncodeToString([]byte(line)), "after": "exit", "exitCode": 3}
 		}
+		if name == "line-plus-more" {
+			// a valid handshake line with Arg more lines behind it in the same write (a plugin that prints a
+			// banner, a block-buffered non-Go plugin): the plugin stays up for 400 ms and then exits by itself
+			line := "1|1|unix|/nonexistent/sock|" + wire + "|"
+			if mux {
+				line += "|true"
+			}
+			line += "\n"
+			for k := 0; k < p.Arg; k++ {
+				line += fmt.Sprintf("plugin banner line %d\n", k)
+			}
+			if p.Death == "exit" {
+				line += "unterminated tail"
+			}
+			pcfg = map[string]any{"mode": "raw", "lineHex": hex.EncodeToString([]byte(line)), "after": "exit", "exitAfterMs": 400}
+		}
 		r.l = prepare(c.ID, "", pcfg, cfg, "cmd", env...)
 		defer r.l.hardKill()
 
@@ -146,7 +162,7 @@ func TestC03(t *testing.T) {
 			return true
 		}
 		switch name {
-		case "partial":
+		case "partial", "line-plus-more":
 			r.start()
 		case "hook":
 			switch arg {
